@@ -52,6 +52,11 @@ def run(ctx):
                 mcases.append((6, [r["grammar"], c["nodes"], [ord(ch) for ch in w], c["rx"], wsl,
                                    start, 0, 1, 0]))
                 meta.append(("forest_ok", r, c))
+            elif c["status"] == "forest" and c.get("graph_nodes") is not None:
+                labels = refparse.propose_labels(c["graph_nodes"], r["grammar"], glrcases.sk_ws(w))
+                mcases.append((11, [r["grammar"], c["graph_nodes"], labels, [ord(ch) for ch in w], c["rx"],
+                                    wsl, start, 0, 1, 0]))
+                meta.append(("forest_ok", r, c))
     outs = common.model_run(mcases)
     nx, xok, xlog = common.coq_crosscheck("C01", mcases, outs, ctx.rng, sample=30 if quick else 100)
     if not xok:
@@ -96,6 +101,13 @@ def run(ctx):
                 distinct.add((r["gtext"], r["opts"]["tables"], w))
                 if c.get("cyclic"):
                     st["cyclic_forests"] += 1
+                    if c.get("graph_nodes") is not None:
+                        st["cyclic_forests_validated"] = st.get("cyclic_forests_validated", 0) + 1
+                        if fok.get((id(r), w)) != 1:
+                            pending.append(("invalid-tree", r, c, dict(rep, forest=c["graph_nodes"]),
+                                            "forest_ok_labelled fails on a cyclic forest: some tree unfolding "
+                                            "from it is not a derivation of the input (or no consistent "
+                                            "labelling was found)"))
                 else:
                     st["forest_ok_checked"] += 1
                     if fok.get((id(r), w)) != 1:
@@ -150,7 +162,8 @@ def run(ctx):
             same = False
             if bres is not None and not bres[i]["gerr"] and bres[i]["cases"]:
                 bc = bres[i]["cases"][0]
-                same = bc["status"] == c["status"] and bc.get("nodes") == c.get("nodes")
+                same = bc["status"] == c["status"] and bc.get("nodes") == c.get("nodes") and \
+                    bc.get("graph_nodes") == c.get("graph_nodes")
             kf = "KF-C01-glr-false-reject" if kind == "false-reject" else "KF-C01-glr-invalid-tree-overlap"
             if same and kf in kfs:
                 st["known_" + kind] = st.get("known_" + kind, 0) + 1
